@@ -8,4 +8,4 @@ Extraction "model.ml" Fragment.run Fragment.fev N.of_nat N.to_nat N.add N.mul
   PidAlloc.allocate PidAlloc.make_ref
   Framing.read_all Framing.write_framed Framing.frame
   Term.wf Cmp.cmp_owned Cmp.cmp_borrowed Cmp.teqb Cmp.map_of_list Cmp.map_insert HashStream.hash_eqb
-  Encode.encode Decode.decode Decode.parse DecoderArms.owned_arms DecoderArms.borrowed_arms.
+  Encode.encode Decode.decode Decode.parse Decode.parse_body DecoderArms.owned_arms DecoderArms.borrowed_arms.
